@@ -885,3 +885,205 @@ func ruleFlagBrackets(w *World, r *Report, rule string, inScope func(pkgPath str
 		r.Hold(rule, "flag:*", "-", "no function raises and lowers a flag field (no bracket to check)")
 	}
 }
+
+// ---------------------------------------------------------------------------------------------
+// ruleUnlockHeld: the dual of "every Lock is released": every Unlock (RUnlock) releases a mutex that is held on
+// EVERY path reaching it — locked earlier in the same function (directly or by a module helper with a
+// constant net locking effect), or the function is only ever called from lock regions of that mutex.
+// sync: "unlock of unlocked mutex" is a fatal runtime error, not a panic: no recover() contains it.
+
+type muKey struct {
+	base ssa.Value
+	fld  *types.Var
+}
+
+func muKeyOf(v ssa.Value) muKey {
+	k := dlRecvKey(v)
+	return muKey{k.base, mutexFieldOf(v)}
+}
+
+// muOp: +1 for Lock/RLock, -1 for Unlock/RUnlock on a sync mutex; the receiver value.
+func muOp(c ssa.CallInstruction) (int, ssa.Value) {
+	f := sCallee(c)
+	if f == nil || len(c.Common().Args) == 0 {
+		return 0, nil
+	}
+	if !(isMethod(f, "sync", "Mutex", f.Name()) || isMethod(f, "sync", "RWMutex", f.Name())) {
+		return 0, nil
+	}
+	switch f.Name() {
+	case "Lock", "RLock":
+		return 1, c.Common().Args[0]
+	case "Unlock", "RUnlock":
+		return -1, c.Common().Args[0]
+	}
+	return 0, nil
+}
+
+var muEffectCache = map[string][2]int{}
+
+// muNetEffect: the net locking effect of calling g on the mutex field fld of its parameter pidx: (effect, 1)
+// when every path to a return has the same net effect, (0, 0) when it differs or cannot be told.
+func muNetEffect(w *World, g *ssa.Function, pidx int, fld *types.Var, depth int) (int, bool) {
+	if g == nil || len(g.Blocks) == 0 || pidx >= len(g.Params) || depth > 2 {
+		return 0, true // no body in the module: cannot touch an unexported mutex field
+	}
+	ck := fmt.Sprintf("%s|%d|%s", ssaFuncKey(g), pidx, fld.Name())
+	if v, ok := muEffectCache[ck]; ok {
+		return v[0], v[1] == 1
+	}
+	muEffectCache[ck] = [2]int{0, 1}
+	key := muKey{g.Params[pidx], fld}
+	first, eff, same := true, 0, true
+	okp := enumPaths(g, nil, func(in ssa.Instruction) bool { return muEvent(w, in, key) }, nil, func(e pathExit) {
+		if _, isRet := e.Last.(*ssa.Return); !isRet {
+			return
+		}
+		d := 0
+		for _, ev := range e.State.Events {
+			x, known := muApply(w, ev, key, depth+1)
+			if !known {
+				same = false
+			}
+			d += x
+		}
+		// deferred unlocks run at the return
+		allInstrs(g, func(in ssa.Instruction) {
+			if df, ok := in.(*ssa.Defer); ok {
+				if op, recv := muOp(df); op != 0 && muKeyOf(recv) == key {
+					d += op
+				}
+			}
+		})
+		if first {
+			eff, first = d, false
+		} else if d != eff {
+			same = false
+		}
+	})
+	if !okp {
+		same = false
+	}
+	if !same {
+		eff = 0
+	}
+	v := [2]int{eff, 0}
+	if same {
+		v[1] = 1
+	}
+	muEffectCache[ck] = v
+	return eff, same
+}
+
+func muEvent(w *World, in ssa.Instruction, key muKey) bool {
+	c, ok := in.(*ssa.Call)
+	if !ok {
+		return false
+	}
+	if op, recv := muOp(c); op != 0 {
+		return muKeyOf(recv) == key
+	}
+	if sc := c.Call.StaticCallee(); sc != nil && inModule(sc) && len(sc.Blocks) > 0 {
+		for _, a := range c.Call.Args {
+			if dlRecvKey(a).base == key.base && dlRecvKey(a).path == "" {
+				return true
+			}
+		}
+	}
+	return false
+}
+
+func muApply(w *World, ev ssa.Instruction, key muKey, depth int) (int, bool) {
+	c := ev.(*ssa.Call)
+	if op, _ := muOp(c); op != 0 {
+		return op, true
+	}
+	sc := c.Call.StaticCallee()
+	total, known := 0, true
+	for i, a := range c.Call.Args {
+		if k := dlRecvKey(a); k.base == key.base && k.path == "" {
+			e, ok := muNetEffect(w, sc, i, key.fld, depth)
+			if !ok {
+				known = false
+			}
+			total += e
+		}
+	}
+	return total, known
+}
+
+func ruleUnlockHeld(w *World, r *Report, rule string, inScope func(pkgPath string) bool) {
+	n := 0
+	var fns []*ssa.Function
+	for fn := range allModuleFuncs(w, w.SSA()) {
+		f0 := fn
+		for f0.Parent() != nil {
+			f0 = f0.Parent()
+		}
+		if f0.Pkg != nil && inScope(f0.Pkg.Pkg.Path()) {
+			fns = append(fns, fn)
+		}
+	}
+	sort.Slice(fns, func(i, j int) bool { return fns[i].Pos() < fns[j].Pos() })
+	for _, fn := range fns {
+		ord := map[string]int{}
+		for _, c := range callsIn(fn) {
+			op, recv := muOp(c)
+			if op != -1 {
+				continue
+			}
+			if _, isGo := c.(*ssa.Go); isGo {
+				continue
+			}
+			key := muKeyOf(recv)
+			if key.fld == nil {
+				continue // a local or package-level mutex: not modelled
+			}
+			n++
+			at, _ := c.(ssa.Instruction)
+			okey := fmt.Sprintf("func:%s|unlock:%s#%d", ssaFuncKey(fn), key.fld.Name(), ord[key.fld.Name()])
+			ord[key.fld.Name()]++
+			bad := ""
+			npaths := 0
+			unknown := false
+			okp := enumPaths(fn, nil, func(in ssa.Instruction) bool { return in != at && muEvent(w, in, key) }, func(in ssa.Instruction) bool { return in == at }, func(e pathExit) {
+				if e.Stop == nil {
+					return
+				}
+				npaths++
+				d := 0
+				for _, ev := range e.State.Events {
+					x, known := muApply(w, ev, key, 0)
+					if !known {
+						unknown = true
+					}
+					d += x
+				}
+				if d <= 0 && bad == "" {
+					bad = fmt.Sprintf("a path reaches this Unlock of %s without having locked it", key.fld.Name())
+				}
+			})
+			if !okp {
+				r.Undecided(rule, okey, w.Pos(c.Pos()), "path budget exceeded")
+				continue
+			}
+			if bad != "" {
+				// the function may be a "called with the lock held" helper
+				isMu := func(v ssa.Value) bool { return mutexFieldOf(v) == key.fld }
+				if first := fn.Blocks[0].Instrs[0]; heldWithCallers(w, first, isMu, 1) {
+					bad = ""
+				}
+			}
+			if bad != "" {
+				bad = w.Pos(c.Pos()) + ": " + bad + " (nor is the function only called from regions that hold it): sync reports 'unlock of unlocked mutex' as a fatal error that no recover() contains — the process dies"
+			} else if unknown {
+				r.Undecided(rule, okey, w.Pos(c.Pos()), "a helper with a path-dependent locking effect lies before this Unlock")
+				continue
+			}
+			r.Check(bad == "", rule, okey, w.Pos(c.Pos()), fmt.Sprintf("held on all %d path(s) reaching it", npaths), bad)
+		}
+	}
+	if n == 0 {
+		r.Hold(rule, "unlock:none", "-", "no Unlock of a mutex field in scope")
+	}
+}
